@@ -82,12 +82,20 @@ func buildPool() *pool {
 
 var pl *pool
 
-func judge(r *core.Run, c *Case) bool {
+func judge(r *core.Run, c *Case) bool { return judgeIn(r, c, nil) }
+
+// judgeIn lets the caller supply the backing array of the trust list: a
+// caller that refills one buffer for call after call is perfectly ordinary,
+// and whatever is remembered about a list must not be remembered by address.
+func judgeIn(r *core.Run, c *Case, buf *[8]*x509.Certificate) bool {
 	chain := make([]*x509.Certificate, len(c.Chain))
 	for i, x := range c.Chain {
 		chain[i] = pl.chain[x]
 	}
 	trust := make([]*x509.Certificate, len(c.Trust))
+	if buf != nil {
+		trust = buf[:len(c.Trust)]
+	}
 	for i, x := range c.Trust {
 		trust[i] = pl.trust[x]
 	}
@@ -241,9 +249,10 @@ func run(r *core.Run) int {
 	type shard struct{ evals, nontriv int }
 	shards := make([]shard, len(chains))
 	r.Parallel(len(chains), func(i int) {
+		var buf [8]*x509.Certificate // the one trust-list buffer of this caller
 		for _, t := range trusts {
 			c := &Case{Chain: chains[i], Trust: t, Pool: n}
-			if !judge(r, c) {
+			if !judgeIn(r, c, &buf) {
 				return
 			}
 			shards[i].evals++
